@@ -246,7 +246,7 @@ func checkProperty(prop, tier string, seed int, dump bool) int {
 	}
 
 	// self-check of the checker: canaries must fire (exit 2 = broken checker, no verdict)
-	if msg := runCanaries(spec); msg != "" {
+	if msg := runCanaries(spec, tier); msg != "" {
 		fmt.Printf("artcheck %s: CHECKER BROKEN – %s\n", prop, msg)
 		return 2
 	}
@@ -372,6 +372,7 @@ func writeEvidence(path string, spec *propSpec, tier string, seed int, obls []*O
 		"checker_cmd":         fmt.Sprintf("bin/artcheck -p %s -tier %s", spec.ID, tier),
 		"trusted_base":        []string{"go/types, go/cfg, go/packages of golang.org/x/tools v0.50.0", "go1.26.8 type checker", "the checker's own rule tables (DESIGN.md §4)", "sync.Pool contract"},
 		"exhaustive":          failure == "",
+		"self_test":           selfTestLog,
 	}
 	if spec.Level == "translation_validation" {
 		cov["programs"] = tvPrograms
